@@ -4,9 +4,16 @@ namespace Juniper.Proofs.Helpers
 open Juniper.Model.Helpers Juniper.Spec.Helpers Juniper.Gen.Helpers
 variable {α : Type}
 
+/-- the swaps are what `r.Shuffle(n, swap)` may ask for: indices in `[0, n)`, `n` the generated first
+argument of the call (`shuffleN (len a)`) -/
 theorem shuffle_perm (a : List α) (swaps : List (Int × Int))
-    (h : ∀ p ∈ swaps, 0 ≤ p.1 ∧ p.1 < a.length ∧ 0 ≤ p.2 ∧ p.2 < a.length) :
+    (h : ∀ p ∈ swaps, 0 ≤ p.1 ∧ p.1 < shuffleN a.length ∧ 0 ≤ p.2 ∧ p.2 < shuffleN a.length) :
     ∃ a', applySwaps swaps a = some a' ∧ a'.Perm a := by
+  replace h : ∀ p ∈ swaps, 0 ≤ p.1 ∧ p.1 < a.length ∧ 0 ≤ p.2 ∧ p.2 < a.length := by
+    intro p hp
+    have := h p hp
+    simp only [shuffleN] at this     -- `r.Shuffle(len(a), …)`
+    omega
   induction swaps generalizing a with
   | nil => exact ⟨a, rfl, List.Perm.refl _⟩
   | cons p rest ih =>
@@ -229,7 +236,7 @@ theorem randResv_trunc (k n f : Int) (hn : 0 ≤ n) (filled : List Int) (hl : (f
 
 theorem reservoirLoop_spec (k n f : Int) (hk : 0 ≤ k) : ∀ (ds : List (Int × Int)) (j : Nat) (lb : Int)
     (filled : List Int), SampRest k n j lb ds → (∃ d ∈ ds, n ≤ d.1) → ResvInv k n j lb filled →
-    ∃ filled', reservoirLoop (fun next => decide (next ≥ n)) ds (randResv k f filled) = some (randResv k f filled') ∧
+    ∃ filled', reservoirLoop (fun next => decide (next ≥ n)) true ds (randResv k f filled) = some (randResv k f filled') ∧
       (filled'.length : Int) = min k n ∧ filled'.Nodup ∧ ∀ p ∈ filled', 0 ≤ p ∧ p < n
   | [], _, _, _, _, hstop, _ => by simp at hstop
   | d :: t, j, lb, filled, ⟨r1, r2, r3, r4⟩, hstop, inv => by
@@ -251,7 +258,7 @@ theorem reservoirLoop_spec (k n f : Int) (hk : 0 ≤ k) : ∀ (ds : List (Int ×
       obtain ⟨nx, rp⟩ := d
       simp only [reservoirLoop, ge_iff_le]
       simp only at hs e
-      simp only [hs, decide_false, Bool.false_eq_true, if_false, e]
+      simp only [hs, decide_false, Bool.false_eq_true, if_false, if_true, e]
       exact e2
 
 theorem resvInv_init (k n : Int) (hn : 0 ≤ n) (lb : Int) : ResvInv k n 0 lb [] :=
@@ -270,7 +277,7 @@ theorem sample_count_distinct_positions (n k : Int) (hk : 0 ≤ k) (hn : 0 ≤ n
   refine ⟨out, ?_, h1, h2, h3⟩
   unfold rSample
   rw [if_neg (show ¬ rsMake n k < 0 by simp only [rsMake]; omega)]
-  simp only [rsMake, rsStop, rsTrunc, rsTruncHi]
+  simp only [rsMake, rsStop, rsStores, rsTrunc, rsTruncHi]
   have e0 : List.replicate k.toNat (0 : Int) = randResv k 0 [] := by simp [randResv]
   rw [e0, e]
   exact randResv_trunc k n 0 hn out h1
@@ -287,7 +294,7 @@ theorem sampleSlice_count_distinct_positions (n k : Int) (hk : 0 ≤ k) (hn : 0 
   obtain ⟨out, e, h1, h2, h3⟩ := reservoirLoop_spec k n (-1) hk ds 0 _ [] hr hstop (resvInv_init k n hn _)
   refine ⟨out, ?_, h1, h2, h3⟩
   unfold rSampleSlicePos
-  simp only [rssStop, rssTrunc, rssTruncHi]
+  simp only [rssStop, rssStores, rssTrunc, rssTruncHi]
   rw [if_neg (by omega)]
   have e0 : List.replicate k.toNat (-1 : Int) = randResv k (-1) [] := by simp [randResv]
   rw [e0, e]
@@ -298,7 +305,7 @@ theorem pullLoop_spec (k n f : Int) (hk : 0 ≤ k) (take : Int → Int → Bool)
     ∀ (fuel : Nat) (ds : List (Int × Int)) (i : Int) (j : Nat) (filled : List Int),
     SampRest k n j i ds → (∃ d ∈ ds, n ≤ d.1) → ResvInv k n j i filled → i ≤ n →
     (n - i).toNat + ds.length < fuel →
-    ∃ filled', pullLoop take n fuel ds i (randResv k f filled) = some (randResv k f filled', n) ∧
+    ∃ filled', pullLoop take true 2 n fuel ds i (randResv k f filled) = some (randResv k f filled', n) ∧
       (filled'.length : Int) = min k n ∧ filled'.Nodup ∧ ∀ p ∈ filled', 0 ≤ p ∧ p < n
   | 0, _, _, _, _, _, _, _, _, hf => by omega
   | _ + 1, [], _, _, _, _, hstop, _, _, _ => by simp at hstop
@@ -324,7 +331,7 @@ theorem pullLoop_spec (k n f : Int) (hk : 0 ≤ k) (take : Int → Int → Bool)
         obtain ⟨nx, rp⟩ := d
         simp only at he e e2
         subst he
-        simp only [pullLoop, ht, hi, decide_true, if_true, if_false, e]
+        simp only [pullLoop, ht, hi, decide_true, ne_eq, not_true_eq_false, if_true, if_false, e]
         exact e2
       · have hlt : i + 1 ≤ d.1 := by omega
         obtain ⟨out, e2, rest⟩ := pullLoop_spec k n f hk take ht fuel (d :: t) (i + 1) j filled
@@ -332,7 +339,7 @@ theorem pullLoop_spec (k n f : Int) (hk : 0 ≤ k) (take : Int → Int → Bool)
         refine ⟨out, ?_, rest⟩
         obtain ⟨nx, rp⟩ := d
         simp only at he
-        simp only [pullLoop, ht, hi, he, decide_false, Bool.false_eq_true, if_false]
+        simp only [pullLoop, ht, hi, he, decide_false, ne_eq, not_true_eq_false, Bool.false_eq_true, if_false]
         exact e2
 
 theorem sampleIter_count_distinct_positions (stream : Bool) (n k : Int) (hk : 0 ≤ k) (hn : 0 ≤ n) (ds : List (Int × Int))
@@ -354,7 +361,10 @@ theorem sampleIter_count_distinct_positions (stream : Bool) (n k : Int) (hk : 0 
   unfold rSampleIterPos
   rw [if_neg (by omega)]
   have e0 : List.replicate k.toNat (-1 : Int) = randResv k (-1) [] := by simp [randResv]
-  simp only [e0, e]
+  -- the stores `out[replace] = item` and the two `i++` of `rSampleIterator` / `rSampleStream`
+  have hst : (if stream then rstStores else rsiStores) = true := by cases stream <;> simp [rstStores, rsiStores]
+  have hin : (if stream then rstIncs else rsiIncs) = 2 := by cases stream <;> simp [rstIncs, rsiIncs]
+  simp only [hst, hin, e0, e]
   have := randResv_trunc k n (-1) hn out h1
   cases stream <;> simpa [rstTrunc, rstTruncHi, rsiTrunc, rsiTruncHi] using this
 
